@@ -135,7 +135,7 @@ def framing_case(symbolic_len, maxlen=None):
     return Case("framing-symbolic-length" if symbolic_len else "framing-bytes<=%d" % maxlen, fn, labels,
                 {"payload_len": "1..2^32-299 (one symbolic variable)" if symbolic_len else "1..%d" % (maxlen + 1),
                  "block_size": [8, 16, 32, 64], "modes": ["plain", "classic", "etm", "aead"],
-                 "mac_size": [12, 16, 20, 32, 64], "message_type_byte": [0, 20, 94, 255]})
+                 "mac_size": [12, 16, 20, 32, 64], "message_type_byte": [0, 20, 94, 255]}, max_paths=150000, wall_s=2400)
 
 
 def cases(tier):
